@@ -185,9 +185,11 @@ type poolRun struct {
 	// limits when it processes a submission (for the submitting accounts, and the
 	// pool-wide ones) and when it processes a head change (for everybody);
 	// demotions caused by SetGasPrice or by evictions may overshoot in between
-	limAll    bool
-	limAccts  map[common.Address]bool
-	limGlobal bool
+	limAll bool
+	// the last add found the pool at its global capacity
+	lastAddPoolFull bool
+	limAccts        map[common.Address]bool
+	limGlobal       bool
 }
 
 func (r *poolRun) add(class, format string, a ...any) {
@@ -239,7 +241,7 @@ func execPool(p *PoolPlan, col *kernel.Collector) []kernel.Violation {
 	for i, op := range p.Ops {
 		col.Tick()
 		r.step = i
-		r.limAll, r.limGlobal, r.limAccts = false, false, map[common.Address]bool{}
+		r.limAll, r.limGlobal, r.limAccts, r.lastAddPoolFull = false, false, map[common.Address]bool{}, false
 		switch op.Kind {
 		case "add":
 			r.opAdd(op)
@@ -363,6 +365,13 @@ func (r *poolRun) opAdd(op PoolOp) {
 		return
 	}
 	before := r.pooled()
+	total := 0
+	for _, m := range before {
+		total += len(m)
+	}
+	// did this submission find the pool full (so that the pool evicted the cheapest
+	// non-local transactions to make room, demoting their senders' later ones)?
+	r.lastAddPoolFull = uint64(total+len(txs)) >= r.p.Cfg.GlobalSlots+r.p.Cfg.GlobalQueue
 	for _, tx := range txs {
 		if from, err := types.Sender(r.signer, tx); err == nil && op.Local {
 			r.maybeLocal[from] = true
@@ -582,7 +591,13 @@ func (r *poolRun) invariants() {
 		}
 		queuedNonLocal += len(txs)
 		if uint64(len(txs)) > r.p.Cfg.AccountQueue && (r.limAll || r.limAccts[a]) {
-			r.add("account-queue-limit-exceeded", "non-local sender %x has %d queued transactions, limit %d", a[:4], len(txs), r.p.Cfg.AccountQueue)
+			class := "account-queue-limit-exceeded"
+			if r.lastAddPoolFull && !r.limAll {
+				// eviction from a full pool demoted pending transactions into a queue whose
+				// limit is enforced only by the next promotion run for that account
+				class += "/after-eviction-from-a-full-pool"
+			}
+			r.add(class, "non-local sender %x has %d queued transactions, limit %d", a[:4], len(txs), r.p.Cfg.AccountQueue)
 			return
 		}
 	}
